@@ -17,8 +17,8 @@ VARIANT = "pinned"
 if VARIANT == "pinned":
     COQ_FILES = ["Common/Corr.v", "Model/DecFloatTables.v", "Model/DecFloat.v", "Proofs/DecFloat.v", "Props/C39.v"]
     PROPS = "Props/C39.v"
-    THEOREMS = ["C39_float64_correctly_rounded_refuted", "C39_exact_flag_refuted",
-                "C39_float64_correctly_rounded_partial", "C39_exact_flag_sound_partial",
+    THEOREMS = ["C39_float64_correctly_rounded_refuted", "C39_float64_correctly_rounded_refuted_table_entry",
+                "C39_exact_flag_refuted", "C39_float64_correctly_rounded_partial", "C39_exact_flag_sound_partial",
                 "C39_parse_float_assumption_realisable"]
     CHK = "dec_chk"
     MODEL_IMPORT = "Model.DecFloat"
@@ -30,7 +30,10 @@ else:
     CHK = "decfix_chk"
     MODEL_IMPORT = "Model.DecFloat Model.DecFloatFixed"
 
-AXIOMS_OK = []  # filled below once Print Assumptions has been read
+# Real-number axioms of the Coq standard library that Flocq's Reals-based proofs stand on
+# (exactly as Print Assumptions names them); nothing is declared by this development
+AXIOMS_OK = ["ClassicalDedekindReals.sig_not_dec", "ClassicalDedekindReals.sig_forall_dec",
+             "FunctionalExtensionality.functional_extensionality_dep", "Classical_Prop.classic"]
 
 COQ_CASES_QUICK, COQ_CASES_THOROUGH, COQ_SHARD = 6000, 120000, 380
 COQ_HEAVY_QUICK, COQ_HEAVY_THOROUGH = 48, 3000
